@@ -23,6 +23,7 @@ from sa.pyfront import Program
 from sa.symex import Interp, flat_guards
 
 RULES = {
+    "R-C06-m": "an optional parameter that holds a category value or a column number (new_common, common, colindex) is tested with `is None`, never by truthiness: 0 is a legal - and the most usual - value",
     "R-C06-l": "collapsed: the dtype of the output array is chosen from a collection that contains every value the method can write into it (the fill value and every precedence code), not from a filtered subset",
     "R-C06-k": "no operation leaves an explicit entry under the common value (imported from the C07 analysis): such an entry is invisible to to_array but is overwritten by the next common-value move, after which the dense values differ from NumPy's",
     "R-C06-j": "an augmented assignment through an integer-array index (A[rows] -= 1) acts once per DISTINCT row (NumPy buffers the read-modify-write), so the index array must be duplicate-free: one entry's row ids are, a concatenation of several entries' row ids is not",
@@ -223,6 +224,46 @@ def rule_c(prog, rep):
     n = fit_dtype_sites(prog, ["iindex.collapsed"], rep, "R-C06-c",
                         lambda q: {"inputs": "the method's own docstring example: M.collapsed([1, 0, -1]) raises OverflowError"})
     rep.floor("R-C06-c", 2, n)
+
+
+CATEGORY_PARAMS = {"iindex.shift_common": ("new_common",), "column_stack": ("new_common",), "iindex.from_array": ("common",), "iindex.common_rowids": ("colindex",)}
+
+
+def rule_m(prog, rep):
+    n = 0
+    for qual, names in CATEGORY_PARAMS.items():
+        fi = prog.func("iindexes", qual)
+        I = Interp(prog, hints.param_types_for("iindexes"), hints.FIELD_TYPES, inline=False)
+        I.run(fi)
+        for nm in names:
+            if nm not in fi.params():
+                rep.undecided("R-C06-m", fi.fq, "parameter %s" % nm, "parameter not found (renamed?)")
+                continue
+            p = tm.param(nm)
+            n += 1
+            bad = None
+            for e in I.events:
+                if e.stack:
+                    continue
+                for c, pol in flat_guards(e.guards):
+                    if c == p:
+                        bad = (e, "used as a condition")
+                for v in e.d.values():
+                    if isinstance(v, tm.T):
+                        for x in tm.walk(v):
+                            if x.op == "bool" and p in x.args[1:]:
+                                bad = (e, "operand of `%s`" % x.args[0])
+                            if x.op == "ifexp" and x.args[0] == p:
+                                bad = (e, "condition of a conditional expression")
+                            if x.op == "unop" and x.args[0] == "not" and x.args[1] == p:
+                                bad = (e, "operand of `not`")
+            if bad:
+                rep.violated("R-C06-m", "%s@%d" % (fi.fq, bad[0].line), "%s: optional parameter %s" % (qual, nm),
+                             "%s is tested by truthiness (%s): an explicit 0 is treated as 'not given'" % (nm, bad[1]),
+                             witness={"inputs": "column_stack([a, b], new_common=0) with b's common value 7: b's common rows read 0 instead of 7" if nm == "new_common" else "%s=0" % nm})
+            else:
+                rep.proved("R-C06-m", fi.fq, "%s: optional parameter %s" % (qual, nm), "only compared with `is None` / by value")
+    rep.floor("R-C06-m", 4, n)
 
 
 def rule_l(prog, rep, RID="R-C06-l"):
@@ -652,6 +693,7 @@ def main(tier):
     rule_h(prog, rep)
     rule_j(prog, rep)
     rule_l(prog, rep)
+    rule_m(prog, rep)
     import c07
     sub7 = core.Report("C07", level="other", rules=c07.RULES, tier=tier)
     ii7 = prog.cls("iindexes", "iindex")
